@@ -165,6 +165,11 @@ type l2world struct {
 func (w *l2world) pick(n int, l string) int { return w.ch.Intn(n, l) }
 func (w *l2world) stamp() int64 { w.seq++; return w.seq }
 func (w *l2world) violate(inv, msg string) {
+	if !w.env.On("C13") && w.env.On("C20") && w.viol == nil && (inv == "operation-blocked" || inv == "panic-in-metallb") {
+		// C20 batch over this engine: only the concurrency clauses (no deadlock, no panic)
+		w.viol = &runner.Violation{Property: "C20", Invariant: inv, Message: msg}
+		w.s.Event("VIOLATION C20/%s: %s", inv, msg)
+	}
 	if w.env.On("C13") && w.viol == nil {
 		w.viol = &runner.Violation{Property: "C13", Invariant: inv, Message: msg}
 		w.s.Event("VIOLATION C13/%s: %s", inv, msg)
@@ -391,6 +396,11 @@ func gl2Run(env *runner.Env) (res *runner.Result) {
 		simarp.Reset()
 		w.faults = w.pick(3, "faults") == 0
 		a, _ := VerifNew(log.NewNopLogger(), nil)
+		// tuning knob: the capacity of the gratuitous-announcement queue (1024 in New) is drawn
+		// per run, so that correctness never silently depends on the queue never filling up
+		spamCap := []int{1, 2, 8, 1024}[w.pick(4, "spam queue capacity")]
+		a.spamCh = make(chan IPAdvertisement, spamCap)
+		w.stats[fmt.Sprintf("knob.spam-queue-capacity-%d", spamCap)]++
 		a.nodeInterfaces = append([]string{}, l2Ifs...)
 		w.a = a
 		s.GoNamed("setup", false, func() {
